@@ -40,6 +40,19 @@ def _store_counts(body, params):
     return counts
 
 
+def _is_ref_chain(e):
+    """A pure reference expression: name / attribute / constant-or-name subscript chain."""
+    while True:
+        if isinstance(e, ast.Name):
+            return True
+        if isinstance(e, ast.Attribute):
+            e = e.value
+        elif isinstance(e, ast.Subscript) and isinstance(e.slice, (ast.Constant, ast.Name, ast.Attribute)):
+            e = e.value
+        else:
+            return False
+
+
 def _is_inlinable_rhs(e):
     """Expressions we are willing to substitute for a local name."""
     for x in ast.walk(e):
@@ -86,12 +99,19 @@ def inline_aliases(body, params, keep=()):
                     closure_used.add(x.id)
     keep = set(keep) | closure_used
 
+    def loads_within(name, loop):
+        inside = sum(1 for x in ast.walk(loop) if isinstance(x, ast.Name) and isinstance(x.ctx, ast.Load) and x.id == name)
+        return inside == loads.get(name, 0)
+
     def collect(stmts, in_loop):
         for st in stmts:
-            if isinstance(st, (ast.Assign, ast.AnnAssign)) and not in_loop:
+            if isinstance(st, (ast.Assign, ast.AnnAssign)):
                 tgt = st.targets[0] if isinstance(st, ast.Assign) and len(st.targets) == 1 else getattr(st, "target", None)
                 val = st.value
-                if isinstance(tgt, ast.Name) and val is not None and counts.get(tgt.id) == 1 and tgt.id not in mutated \
+                if in_loop is not None and not (isinstance(tgt, ast.Name) and loads_within(tgt.id, in_loop)):
+                    pass
+                elif isinstance(tgt, ast.Name) and val is not None and counts.get(tgt.id) == 1 \
+                        and (tgt.id not in mutated or _is_ref_chain(val)) \
                         and tgt.id not in keep and _is_inlinable_rhs(val) and loads.get(tgt.id, 0) >= 1:
                     if not isinstance(val, (ast.List, ast.Dict, ast.Set, ast.ListComp, ast.DictComp, ast.SetComp, ast.GeneratorExp)) \
                             or True:
@@ -99,12 +119,12 @@ def inline_aliases(body, params, keep=()):
             for fld in ("body", "orelse", "finalbody"):
                 sub = getattr(st, fld, None)
                 if isinstance(sub, list) and sub and isinstance(sub[0], ast.stmt):
-                    collect(sub, in_loop or isinstance(st, (ast.For, ast.While)))
+                    collect(sub, st if isinstance(st, (ast.For, ast.While)) else in_loop)
             if isinstance(st, ast.Try):
                 for h in st.handlers:
                     collect(h.body, in_loop)
 
-    collect(body, False)
+    collect(body, None)
     if not aliases:
         return body
 
